@@ -46,6 +46,8 @@ const (
 	pieceLen = 2
 	tti      = 10 * time.Minute
 	advance  = 6 * time.Minute
+	// a closed connection is replaced by a new one at most this often per timeline
+	maxReconnects = 1
 )
 
 // fakeMessages behaves like a conn towards the dispatcher: Send consumes and
@@ -162,15 +164,25 @@ func harness(r role) *vrt.Harness {
 		present := true // torrent controlled by the scheduler
 		received := 0
 		var vio []string
-		fm := &fakeMessages{recv: make(chan *conn.Message)}
-		b := bitset.New(uint(nPieces))
-		if !r.seeding {
-			b = b.Complement()
+		// the remote peer's link; a closed link is replaced by a new one when a
+		// peer connects again (all links are kept for the payload check at the end)
+		var fm *fakeMessages
+		var links []*fakeMessages
+		remoteID := core.PeerIDFixture()
+		connect := func() error {
+			fm = &fakeMessages{recv: make(chan *conn.Message)}
+			links = append(links, fm)
+			b := bitset.New(uint(nPieces))
+			if !r.seeding {
+				b = b.Complement()
+			}
+			return v.VerifAddPeer(dg, remoteID, b, fm)
 		}
-		if err := v.VerifAddPeer(dg, core.PeerIDFixture(), b, fm); err != nil {
+		if err := connect(); err != nil {
 			return "", "HARNESS: AddPeer: " + err.Error()
 		}
 		c.Drain()
+		reconnects := 0
 		steps := 0
 		removedManually := false
 		check := func(after string) {
@@ -261,6 +273,28 @@ func harness(r role) *vrt.Harness {
 					check("receive")
 				}})
 			}
+			if !fm.isClosed() {
+				// The real path of a closed connection as the dispatcher sees it: the
+				// conn's receiver channel is closed, the peer's feed goroutine ends,
+				// removePeer deletes the peer entry and peerRemovedEvent is applied.
+				a = append(a, e1q.Action{Label: "the peer's connection closes (peer removed from the dispatcher)", Run: func() {
+					fm.Close()
+					c.Drain()
+					if n := len(disp.RemoteBitfields()); n != 0 {
+						vio = append(vio, fmt.Sprintf("HARNESS: %d peers left in the dispatcher after the only connection closed", n))
+					}
+					check("conn close")
+				}})
+			} else if reconnects < maxReconnects {
+				a = append(a, e1q.Action{Label: "the peer connects again", Run: func() {
+					reconnects++
+					if err := connect(); err != nil {
+						vio = append(vio, "HARNESS: AddPeer after a closed connection: "+err.Error())
+					}
+					c.Drain()
+					check("connect")
+				}})
+			}
 			a = append(a, e1q.Action{Label: "advance 6min", Run: func() { e1q.Sleep(advance); c.Drain(); check("advance") }})
 			a = append(a, e1q.Action{Label: "tick", Run: func() {
 				go v.SendPreemptionTick()
@@ -338,8 +372,11 @@ func harness(r role) *vrt.Harness {
 		c.Drain()
 		mu.Lock()
 		defer mu.Unlock()
-		if len(fm.bad) > 0 {
-			vio = append(vio, "served piece payload differs from the blob: "+fm.bad[0])
+		for _, l := range links {
+			if len(l.bad) > 0 {
+				vio = append(vio, "served piece payload differs from the blob: "+l.bad[0])
+				break
+			}
 		}
 		obs := fmt.Sprintf("%s present=%v dl=%v/%v", strings.Join(c.Trace, ","), present, dlReturned, dlErr)
 		if len(obs) > 300 {
@@ -422,6 +459,7 @@ func main() {
 			run.States += int64(res.Executions)
 			run.Traces += int64(res.Executions)
 			overl, rejAfter, dropped := 0, 0, 0
+			closed, closedBusy := 0, 0
 			for k, n := range res.Outcomes {
 				var st int
 				if i := strings.Index(k, " steps="); i >= 0 {
@@ -431,6 +469,16 @@ func main() {
 				if !strings.Contains(k, " ovl=0 ") {
 					overl += n
 				}
+				if i := strings.Index(k, " closes="); i >= 0 {
+					var nc, nb int
+					fmt.Sscanf(k[i:], " closes=%d/%d", &nc, &nb)
+					if nc > 0 {
+						closed += n
+					}
+					if nb > 0 {
+						closedBusy += n
+					}
+				}
 				if !strings.HasSuffix(k, "rejafter=0") {
 					rejAfter += n
 				}
@@ -439,10 +487,15 @@ func main() {
 				}
 			}
 			run.Set("vacuity:"+h.Name, map[string]interface{}{
-				"timelines_with_overlapping_operations":                  overl,
-				"timelines_where_a_rejected_write_spans_an_accepted_one": rejAfter,
-				"timelines_in_which_a_tick_dropped_the_torrent":          dropped,
+				"timelines_with_overlapping_operations":                   overl,
+				"timelines_where_a_rejected_write_spans_an_accepted_one":  rejAfter,
+				"timelines_in_which_a_tick_dropped_the_torrent":           dropped,
+				"timelines_with_a_closed_connection":                      closed,
+				"timelines_with_a_connection_closed_during_its_operation": closedBusy,
 			})
+			if closed == 0 || closedBusy == 0 {
+				run.Fatal(fmt.Errorf("%s: vacuous exploration: no timeline closed a connection (%d) / closed one with an operation in flight (%d)", r.name, closed, closedBusy))
+			}
 			// only the harness-driven counter is a hard vacuity condition: whether a
 			// write is rejected or a tick drops the torrent is the implementation's answer
 			if overl == 0 {
